@@ -5,5 +5,6 @@ CONSTANTS
   Keys = {"k1"}
   WithList = TRUE
   WithInserts = TRUE
+  WithHist = TRUE
 INVARIANTS Emit LocalEffect Convergence
 CHECK_DEADLOCK FALSE
